@@ -1,8 +1,10 @@
 /-
-  FspecPairBefore4 — what `insert_before` does in the corner excluded from `insertBefore_pair`
-  (`Spec.selfMerge f (.before r) c`: the moved text node `c` stands between two text nodes
-  `a c b`, and `r` stands directly after `b`): the call succeeds and the moved node is destroyed
-  (merged "into the previous sibling of `r`", which after the merge of `a` and `b` is `c` itself).
+  FspecPairBefore4 — what `insert_before` does in the corner `Spec.selfMerge f (.before r) c`
+  (the moved text node `c` stands between two text nodes `a c b`, and `r` stands directly after
+  `b`; finding `C05:move-changes-character-data`, fixed by xot eccbbb7): the call succeeds, the
+  previous sibling of `r` after the merge of `a` and `b` is `c` itself, the helper takes `c`'s own
+  previous sibling — the merged text node — instead, and the result is the specification
+  `specMoveP`: no character data is lost.
 -/
 import XotModel.Lemmas.FspecPairBefore3
 import XotModel.Lemmas.FspecFrame
@@ -85,10 +87,11 @@ end PairBefore
 
 open PairBefore
 
-/-- **The defect**: in the `selfMerge` corner `insert_before` succeeds and the moved text node is
-    gone afterwards (its character data is lost). -/
+/-- **The repaired corner** (xot eccbbb7): in the `selfMerge` corner `insert_before` succeeds and
+    is the specification: the moved text node is merged into the text node its two neighbours have
+    become. -/
 theorem insertBefore_selfMerge {f : Forest} {r c : Nat} (inv : f.Inv) (h : selfMerge f (.before r) c = true) :
-    (f.insertBefore r c).2 = .ok ∧ (f.insertBefore r c).1.isLive c = false := by
+    (f.insertBefore r c).2 = .ok ∧ (f.insertBefore r c).1 = specMoveP (.before r) c f := by
   have nd := inv.nodup
   obtain ⟨hc, p, vo, l', a, t, b, kr, B, so, e0, e1, hat, htt, hbt⟩ := selfMerge_unpack nd h
   subst e0 e1
@@ -148,75 +151,55 @@ theorem insertBefore_selfMerge {f : Forest} {r c : Nat} (inv : f.Inv) (h : selfM
   have O := oldP_merged so hleafAll hc hx hy
   have sX := O.site
   have hne : (some b.handle == some t.handle) = false := by simpa using hbt'
-  rw [insertBefore_unfold]
-  simp only [hsc, hsr, hprevr, hne, Bool.not_true, Bool.false_eq_true, if_false]
-  rw [hprevc, hnextc, hmerge]
-  simp only
-  generalize hX : f.editAt (some p) (fun _ => l' ++ a.setValue (.text (x ++ y)) :: ([t] ++ kr :: B)) = X at sX ⊢
-  -- the second half: the previous sibling of the reference is now the moved node itself
-  have sX' : SiteAt X p vo (((l' ++ [a.setValue (.text (x ++ y))]) ++ [t]) ++ kr :: B) := by
-    have e : ((l' ++ [a.setValue (.text (x ++ y))]) ++ [t]) ++ kr :: B =
-        (l' ++ [a.setValue (.text (x ++ y))]) ++ t :: kr :: B := by simp
-    rw [e]; exact sX
-  have hXprev : X.prevSibling kr.handle = some t.handle := by
-    rw [Forest.prevSibling_of_ctx sX'.ctx]
-    exact prevOf_concat_normal htn hkrn
-  have hXc : X.consolidation = true := by rw [← hX, Forest.editAt_consolidation]; exact hc
-  have hXtext : X.textOf t.handle = some tc := (Forest.textOf_of_get sX.getKid).trans htd
-  unfold insertBeforeTail
-  rw [hXprev, Forest.addConsolidate_prev hXc hXtext hXtext]
-  simp only [if_true, true_and]
-  -- the node is gone
-  obtain ⟨ndLX, _⟩ := sX.nodupKids
-  obtain ⟨tlX, trX⟩ := tops_ne_of_nodup ndLX
-  let v : Value := .text (tc ++ tc)
-  let S : List HTree → List HTree := replaceTop t.handle (fun k => [k.setValue v])
-  have hS : S ((l' ++ [a.setValue (.text (x ++ y))]) ++ t :: kr :: B) =
-      (l' ++ [a.setValue (.text (x ++ y))]) ++ t.setValue v :: kr :: B := by
-    simp only [S]
-    rw [replaceTop_mid rfl tlX]
+  have hok : (f.insertBefore kr.handle t.handle).2 = .ok := by
+    rw [insertBefore_unfold]
+    simp only [hsc, hsr, hprevr, hne, Bool.not_true, Bool.false_eq_true, if_false]
+    rw [hprevc, hnextc, hmerge]
+    simp only
+    generalize hX : f.editAt (some p) (fun _ => l' ++ a.setValue (.text (x ++ y)) :: ([t] ++ kr :: B)) = X at sX ⊢
+    -- the second half: the previous sibling of the reference is now the moved node itself
+    have sX' : SiteAt X p vo (((l' ++ [a.setValue (.text (x ++ y))]) ++ [t]) ++ kr :: B) := by
+      have e : ((l' ++ [a.setValue (.text (x ++ y))]) ++ [t]) ++ kr :: B =
+          (l' ++ [a.setValue (.text (x ++ y))]) ++ t :: kr :: B := by simp
+      rw [e]; exact sX
+    have hXprev : X.prevSibling kr.handle = some t.handle := by
+      rw [Forest.prevSibling_of_ctx sX'.ctx]
+      exact prevOf_concat_normal htn hkrn
+    have ha'n : (a.setValue (.text (x ++ y))).value.isNormal = true := by
+      simp [setValue_value, Value.isNormal, Value.category]
+    have hXprevc : X.prevSibling t.handle = some (a.setValue (.text (x ++ y))).handle := by
+      rw [Forest.prevSibling_of_ctx sX.ctx]
+      exact prevOf_concat_normal ha'n htn
+    have sXa : SiteAt X p vo (l' ++ a.setValue (.text (x ++ y)) :: (t :: kr :: B)) := by
+      have e : l' ++ a.setValue (.text (x ++ y)) :: (t :: kr :: B) =
+          (l' ++ [a.setValue (.text (x ++ y))]) ++ t :: kr :: B := by simp
+      rw [e]; exact sX
+    have hXa : X.textOf (a.setValue (.text (x ++ y))).handle = some (x ++ y) := by
+      rw [Forest.textOf_of_get sXa.getKid]
+      exact textData_of_value (setValue_value _ _)
+    have hXc : X.consolidation = true := by rw [← hX, Forest.editAt_consolidation]; exact hc
+    have hXtext : X.textOf t.handle = some tc := (Forest.textOf_of_get sX.getKid).trans htd
+    unfold insertBeforeTail
+    rw [hXprev, Forest.addConsolidate_prev_self hXc hXtext hXprevc hXa]
     simp
-  have sZ : SiteAt (X.editAt (some p) S) p vo ((l' ++ [a.setValue (.text (x ++ y))]) ++ t.setValue v :: kr :: B) := by
-    have := sX.edit S (by simp only [S]; rw [handlesList_setValTop]; exact List.Sublist.refl _)
-    rwa [hS] at this
-  have hZget := sZ.getKid
-  have hZctx := sZ.ctx
-  rw [setValue_handle] at hZget hZctx
-  have hleafZ : (t.setValue v).kids = [] := by
-    rw [setValue_kids]; exact hleafAll t (by simp) htt
-  rw [Forest.setValue_of_ctx v sX.nd sX.ctx, Forest.spliceOut_leaf sZ.nd hZget hleafZ,
-    Forest.parent?_of_ctx hZctx]
-  have hcnt := sZ.count (dropTop t.handle) t.handle
-  obtain ⟨ndLZ, _⟩ := sZ.nodupKids
-  obtain ⟨tlZ, trZ⟩ := tops_ne_of_nodup ndLZ
-  rw [setValue_handle] at tlZ trZ
-  have hdropZ : dropTop t.handle ((l' ++ [a.setValue (.text (x ++ y))]) ++ t.setValue v :: kr :: B) =
-      (l' ++ [a.setValue (.text (x ++ y))]) ++ kr :: B := dropTop_mid (setValue_handle _ _) tlZ trZ
-  rw [hdropZ, count_handles_mid] at hcnt
-  have h1 : (handles (t.setValue v)).count t.handle ≥ 1 := by
-    rw [setValue_handles]
-    exact List.count_pos_iff.2 (fs_handle_mem_handles t)
-  have h2 := List.nodup_iff_count.1 sZ.nd t.handle
-  have hzero : ((X.editAt (some p) S).editAt (some p) (dropTop t.handle)).allHandles.count t.handle = 0 := by omega
-  have hnot : t.handle ∉ ((X.editAt (some p) S).editAt (some p) (dropTop t.handle)).allHandles :=
-    List.count_eq_zero.1 hzero
-  unfold Forest.isLive
-  rw [Forest.get?_eq, findList?_eq_none _ hnot]
-  rfl
+  exact ⟨hok, insertBefore_pair inv hok⟩
 
 end XotModel
 
 namespace XotModel
 open HTree Spec
 
-/-- The corner exists in a forest satisfying the invariant. -/
+/-- The corner exists in a forest satisfying the invariant: `a b c <e/>`, `insert_before(e, b)`
+    gives `acb <e/>`; the node `b` is gone, its data is not. -/
 example :
     let f : Forest := { roots := [.node 0 (.element 2) [.node 1 (.text ['a']) [], .node 2 (.text ['b']) [],
                           .node 3 (.text ['c']) [], .node 4 (.element 3) []]],
                         next := 5, consolidation := true, everOff := true }
     f.inv = true ∧ selfMerge f (.before 4) 2 = true ∧ (f.insertBefore 4 2).2 = .ok ∧
       (f.insertBefore 4 2).1.isLive 2 = false ∧
-      (f.insertBefore 4 2).1.content = [.node (.element 2) [.node (.text ['a', 'c']) [], .node (.element 3) []]] := by
+      (f.insertBefore 4 2).1 = specMoveP (.before 4) 2 f ∧
+      (f.insertBefore 4 2).1.content =
+        [.node (.element 2) [.node (.text ['a', 'c', 'b']) [], .node (.element 3) []]] := by
   decide
 
 end XotModel
